@@ -10,3 +10,16 @@ func NextSeparator(path string, start int) int {
 	}
 	return start
 }
+
+// nextPathSeparator returns an index of next separator in a looked-up path.
+//
+// Unlike keys of records, a looked-up path is not terminated by the TerminationCharacter.
+func nextPathSeparator(path string, start int) int {
+	for start < len(path) {
+		if path[start] == SeparatorCharacter {
+			break
+		}
+		start++
+	}
+	return start
+}
